@@ -35,6 +35,8 @@ RULE = (
     "label values with repeats) x rbf gamma in {None} u [0.1,5] x optional "
     "positive sample weights (kernel regressors) x 1-5 query points of kind "
     "train-row / perturbed row / bounding box +-1 / offset 3..40 / offset 150 "
+    "/ offset with gamma*d^2 in [709,742] (subnormal kernel value) x numeric "
+    "or NaN missing_label x one re-used query buffer overwritten in place "
     "x n_samples 1-4 x seed. Per query row the geometry class is computed "
     "from the input: near (largest kernel value >= 1e-8), mid (>= 1e-290), "
     "sub (positive, below), far (gamma*d^2 > 800 for every labeled sample: "
@@ -48,8 +50,8 @@ ASSUMPTIONS = [
     "rtol=1e-6 (different computation)",
     "std finite and >= 0 is asserted for the kernel regressors only where the "
     "returned distribution reports df > 2 AND the posterior is well defined "
-    "by the input: proper prior (kappa_0>0, nu_0>0, sigma_sq_0>0) in the "
-    "classes nolabels/near/mid/far, or an improper prior in the near class "
+    "by the input: proper prior (kappa_0>0, nu_0>0, sigma_sq_0>0) in every "
+    "geometry class (incl. sub), or an improper prior in the near class "
     "with kappa_post>0, nu_post>0 and a positive scatter guaranteed by "
     "nu_0*sigma_sq_0>0 or two well-weighted distinct label values; "
     "mean finite is asserted under the same condition with df > 1 (scipy "
